@@ -438,6 +438,11 @@ class Analysis:
                     if oe is not None:
                         new_edges.add(oe)
                         records[oe] = {"block": bi, "edge": "Some", "where": t["span"]}
+                    else:
+                        re_ = self.result_evidence_edge(body, bi, t)
+                        if re_ is not None:
+                            new_edges.add(re_)
+                            records[re_] = {"block": bi, "edge": "Continue of an evidence-returning helper", "where": t["span"]}
                     continue
                 origin = self.op_bool_flagaware(body, op, reach)
                 true_t, false_t = switch_bool_targets(t)
@@ -453,6 +458,55 @@ class Analysis:
                 break
             edges = new_edges
         return edges, list(records.values())
+
+    def ok_only_under_evidence(self, g):
+        """every `Ok(..)` a (small, non-public) helper returns is cut off from its entry by convergence evidence: the stage of a
+        solver that was split off (`solve_density(..) -> EosResult<Density>`); memoised, pessimistic under recursion"""
+        key = ("okev", g.path)
+        if key in self.param_memo:
+            return self.param_memo[key]
+        self.param_memo[key] = False
+        res = False
+        if not g.is_closure() and g.get("vis") != "Public" and (g.lty(0) or {}).get("s", "").startswith("std::result::Result<") and len(g.blocks) <= 400:
+            ok_blocks = set()
+            for bi, si, st in g.stmts():
+                rv = st["rv"]
+                if st["place"]["l"] == 0 and not st["place"]["p"] and rv["k"] == "agg" and rv["kind"].get("variant") == "Ok":
+                    ok_blocks.add(bi)
+            # a tail call `other(..)` stored straight into the return place would be an unexamined success path
+            tail = [bi for bi, t in g.calls() if t["dest"]["l"] == 0 and not t["dest"]["p"] and callee(t)[2] not in ("from_residual",)]
+            if ok_blocks and not tail:
+                edges, _ = self.evidence_edges(g)
+                reach = reachable(g, edges)
+                res = not (ok_blocks & reach)
+        self.param_memo[key] = res
+        return res
+
+    def result_evidence_edge(self, body, bi, t):
+        """`helper(..)?` : the Continue edge of the `?` on the result of an evidence-returning helper"""
+        l, sp = strip_place(t["op"]["place"])
+        if sp:
+            return None
+        ds = self.D(body).of(l)
+        if len(ds) != 1 or ds[0][0] != "stmt" or ds[0][4]["k"] != "discr" or ds[0][4]["place"]["p"]:
+            return None
+        cf = ds[0][4]["place"]["l"]
+        dc = self.D(body).of(cf)
+        if len(dc) != 1 or dc[0][0] != "call":
+            return None
+        bt = dc[0][2]
+        if callee(bt)[2] != "branch" or callee(bt)[1] != "std::ops::Try" or bt["args"][0].get("k") not in ("copy", "move"):
+            return None
+        dr = self.D(body).of(bt["args"][0]["place"]["l"])
+        if len(dr) != 1 or dr[0][0] != "call":
+            return None
+        g = self.F.callee_body(dr[0][2])
+        if g is None or g.path == body.path or not g.path.startswith(("feos_core::", "feos_dft::", "feos::")):
+            return None
+        if not self.ok_only_under_evidence(g):
+            return None
+        tg = dict((v, x) for v, x in t["targets"])
+        return (bi, tg["0"]) if "0" in tg else None
 
     def option_flag_edge(self, body, bi, t, reach):
         l, sp = strip_place(t["op"]["place"])
@@ -771,6 +825,13 @@ def run(F, prop=None):
     entries = []
     for e in tab["verdict"]:
         bs = [b for b in F.bodies if not b.is_closure() and b.path.endswith(e["fn"]) and b.crate == e["crate"]]
+        if not bs:
+            # moved to another module (`state::newton` -> `state::newton::newton`): the unique function of that name in the crate
+            last = e["fn"].split("::")[-1]
+            cand = [b for b in F.bodies if not b.is_closure() and b.crate == e["crate"] and b.path.split("::")[-1] == last
+                    and "::tests::" not in b.path and not b.get("in_trait")]
+            if len(cand) == 1:
+                bs = cand
         entries.append((e, bs))
         for b in bs:
             verdict_paths.add(b.path)
